@@ -16,6 +16,7 @@ pub fn run(seed: u64, ntraces: usize) {
         let toks: Vec<Vec<u8>> = vec![b"GAS-111111".to_vec(), b"TOK-222222".to_vec()];
         let all: Vec<VMAddress> = [owner.clone(), collector.clone()].into_iter().chain(users.iter().cloned()).collect();
         for u in &all { w.add_user(u, 1_000_000); for tk in &toks { w.add_esdt(u, tk, 1_000_000); } }
+        for u in &all { w.add_sft(u, b"SFT-abcdef", 5, 1000); }       // a semi-fungible position: never a valid gas payment
         let gs = sc_addr(0x12);
         let collector = if t % 6 == 5 { VMAddress::zero() } else { collector };       // a service deployed without a collector: nobody may collect
         let st = w.deploy(&owner, &gs, b"gas", vec![collector.to_vec()]);
@@ -35,6 +36,7 @@ pub fn run(seed: u64, ntraces: usize) {
                     1 => if want_native { (0, vec![(toks[0].clone(), 0, bn(1 + r.below(50)))]) } else { (1 + r.below(50), vec![]) },
                     2 => (0, vec![(toks[0].clone(), 0, bn(5)), (toks[1].clone(), 0, bn(7))]),
                     3 => (0, vec![(toks[0].clone(), 0, bn(0))]),
+                    4 => if want_native { (1 + r.below(500), vec![]) } else { (0, vec![(b"SFT-abcdef".to_vec(), 5, bn(1 + r.below(9)))]) },      // one ESDT transfer with a nonce: not fungible
                     _ => if want_native { (1 + r.below(500), vec![]) } else { (0, vec![(r.pick(&toks).clone(), 0, bn(1 + r.below(500)))]) },
                 }
             };
